@@ -36,9 +36,22 @@ def _subseq(a, k):
 
 # --------------------------------------------------------------------------- G
 def _replay_line(b):
+    bad = _replay_variant(b, "float64")
+    if not bad and (sum(b["knees"]) + len(b["pts"])) % 3 == 0:       # a third of the (integral) grid cases also as int64, and
+        bad = _replay_variant(b, "int64")                            # scaled down (IoU and height order are scale invariant)
+        if not bad:
+            bad = _replay_variant(b, "scaled")
+    return bad
+
+
+def _replay_variant(b, variant):
     import kneeliverse.postprocessing as pp
     bad = []
     P = np.array(b["pts"], float)
+    if variant == "int64":
+        P = P.astype(np.int64)
+    elif variant == "scaled":
+        P = P * 2.0 ** -18 + 2.0 ** -10
     n = len(P)
     knees = list(b["knees"])
     try:
@@ -46,7 +59,7 @@ def _replay_line(b):
         exp = list(b["worst"])
         if w1 != exp:
             lost = (set(exp) - set(w1)) & set(b["ties"])
-            bad.append(("tie-kept" if lost else "running-minimum", {"f": FW, "got": w1, "expected": exp}))
+            bad.append(("tie-kept" if lost else "running-minimum", {"f": FW, "got": w1, "expected": exp, "variant": variant}))
         if w2 != w1:
             bad.append(("idempotent(%s)" % FW, {"once": w1, "twice": w2}))
     except Exception as ex:
@@ -62,7 +75,7 @@ def _replay_line(b):
             bad.append(("completes", {"f": "corner", "t": [p, q], "raised": repr(ex)[:200]}))
             continue
         ef, es = list(b["filt"][j]), list(b["sel"][j])
-        d = {"t": [p, q], "filter": f1, "select": s1, "expected_filter": ef, "expected_select": es}
+        d = {"t": [p, q], "filter": f1, "select": s1, "expected_filter": ef, "expected_select": es, "variant": variant}
         if any(k not in f1 for k in ends):
             bad.append(("ends-kept", d))
         if not _subseq(f1, knees) or not _subseq(s1, knees):
